@@ -149,12 +149,14 @@ def run(m):
 
 def main():
     args = sys.argv[1:]
-    j, sample = 8, 0
-    while args[:1] and args[0] in ("-j", "--sample"):
+    j, sample, complement = 8, 0, 0
+    while args[:1] and args[0] in ("-j", "--sample", "--complement"):
         if args[0] == "-j":
             j = int(args[1])
-        else:
+        elif args[0] == "--sample":
             sample = int(args[1])
+        else:
+            complement = int(args[1])  # the variants the sample of that size (over ALL packages) left out
         args = args[2:]
     only = None
     if args[:1] == ["--survivors"]:
@@ -167,6 +169,11 @@ def main():
     if sample and sample < len(work):
         random.Random(1).shuffle(work)
         work = sorted(work[:sample])
+    if complement:
+        allw = [m for p in oc.PKGS for m in mutants(p)]
+        random.Random(1).shuffle(allw)
+        left = {(m[0], m[1], m[2], m[5]) for m in allw[complement:]}
+        work = [m for m in work if (m[0], m[1], m[2], m[5]) in left]
     print(f"{len(work)} variants in {len(pkgs)} packages", flush=True)
     counts, survivors, reported = {}, [], []
     with ThreadPoolExecutor(j) as ex:
@@ -196,6 +203,8 @@ def main():
     for s in covered:
         print(f"SURVIVOR {s['pkg']}/{s['file']}:{s['line']} {s['func']} [{s['op']}]  {s['old']}   =>   {s['new']}")
     out = "MUTATION_RESULTS.json" if only is None else "MUTATION_RERUN.json"
+    if complement:
+        out = "MUTATION_RESULTS_2.json"
     json.dump({"counts": counts, "survivors": survivors, "reported": reported},
               open(os.path.join(V, "mutants", out), "w"), indent=1)
 
